@@ -189,12 +189,13 @@ def keepBottom {α : Type} (l : List α) : List α :=
   | some x => [x]
   | none => []
 
-/-- `Stack::pop_to_toplevel`. -/
+/-- `Stack::pop_to_toplevel` (src/env.rs): keep the toplevel frame only, clear its pending
+entries, keep its first value and its first binding block. -/
 def popToToplevel (s : State) : State :=
   match s.frames.getLast? with
   | none => s
   | some f0 =>
-    { s with frames := [{ f0 with values := keepBottom f0.values, blocks := keepBottom f0.blocks }] }
+    { s with frames := [{ f0 with exprs := [], values := keepBottom f0.values, blocks := keepBottom f0.blocks }] }
 
 /-- What `eval_tests` records for a test: `None` or `Some(EvalError)`. -/
 inductive Verdict where
